@@ -27,7 +27,7 @@ package main
 //@   loop 2 invariant [C13] forall xx int :: 0 <= xx && xx <= rangeindex_2 && !onEdge(out, edgePixels, y, xx) ==> out.Pix[y][xx] != 0
 //@   ensures [C13] result == nil ==> (forall yy int, xx int :: 0 <= yy && yy < len(out.Pix) && 0 <= xx && xx < roww(out) ==> out.Pix[yy][xx] == wordLE(raw, yy * roww(out) + xx))
 //@   ensures [C13] result == nil ==> (forall yy int, xx int :: 0 <= yy && yy < len(out.Pix) && 0 <= xx && xx < roww(out) && !onEdge(out, edgePixels, yy, xx) ==> out.Pix[yy][xx] != 0)
-//@   check [C13] result != nil ==> 0 <= y && y < len(out.Pix) && 0 <= x && x < roww(out) && !onEdge(out, edgePixels, y, x) && wordLE(raw, y * roww(out) + x) == 0
+//@   check [C13,C08] result != nil ==> 0 <= y && y < len(out.Pix) && 0 <= x && x < roww(out) && !onEdge(out, edgePixels, y, x) && wordLE(raw, y * roww(out) + x) == 0
 //@   ensures [C13] result != nil ==> dyntype(result) == typecode("*github.com/TheCacophonyProject/lepton3.BadFrameErr")
 //@   ensures [C13] out.Status.TimeOn == 60000000000 && out.Status.LastFFCTime == 1000000000
 
